@@ -51,6 +51,10 @@ Definition is_some {A} (o : option A) : bool := match o with Some _ => true | No
 Section Codecs.
   Variable b64_enc hex_enc : bytes -> bytes.
   Variable tool : bytes.                         (* base.LalPackSdp *)
+  (* true: the tree after "fix: rtmp2rtsp packs opus at the 48000 Hz rtp clock the
+     sdp announces"; false: the pinned tree, where the Opus packer ran at the
+     metadata's audiosamplerate while sdp.Pack wrote opus/48000 *)
+  Variable opus_fixed : bool.
 
   Definition u8z (z : Z) : N := Z.to_N (z mod 256).
 
@@ -62,7 +66,7 @@ Section Codecs.
       let mk p := (mk_r2r (q_done s) (q_cache s) (q_vps s) (q_sps s) (q_pps s) (q_asc s) (q_apt s) (q_vpt s)
                           (q_arate s) (Some p) (q_vpacker s), Some p) in
       if (q_apt s =? pt_g711a)%Z || (q_apt s =? pt_g711u)%Z then mk (KPcm, q_arate s, 0)
-      else if (q_apt s =? pt_opus)%Z then mk (KOpus, q_arate s, 0)
+      else if (q_apt s =? pt_opus)%Z then mk (KOpus, if opus_fixed then opus_default_rate else q_arate s, 0)
       else if (q_apt s =? pt_aac)%Z then
         match q_asc s with
         | None => (s, None)
@@ -235,5 +239,9 @@ Section Codecs.
     | i :: t => let (s1, o1) := feed_rtmp_msg s i in let (s2, o2) := feed_all_msgs s1 t in (s2, o1 ++ o2)
     end.
 
-  Definition run_rtsp (l : list rin) : list rout := snd (feed_all_msgs r2r_init l).
+  Definition run_rtsp_gen (l : list rin) : list rout := snd (feed_all_msgs r2r_init l).
 End Codecs.
+
+(* the current tree / the pinned tree *)
+Definition run_rtsp (b64_enc hex_enc : bytes -> bytes) (tool : bytes) := run_rtsp_gen b64_enc hex_enc tool true.
+Definition run_rtsp_pinned (b64_enc hex_enc : bytes -> bytes) (tool : bytes) := run_rtsp_gen b64_enc hex_enc tool false.
